@@ -50,7 +50,6 @@ theorem input_eof_reply (s : State w) (off : Int) (rest : List InResp)
                                               trace := Ev.inp 0 :: s.trace }) := by
   have hr : s.env.readByte = .got 0 { s.env with input := some rest } := by simp [Env.readByte, h]
   simp only [State.input, hr, fromU8_zero]
-  rfl
 
 theorem input_byte (s : State w) (off : Int) (b : UInt8) (rest : List InResp)
     (h : s.env.input = some (.byte b :: rest)) :
@@ -332,6 +331,67 @@ theorem bc_run_stopped {p : Bc.Program w} {l : Bool} {f : Nat} {c0 c' : Bc.Cfg w
     | interrupted c1 => rw [hs] at h; cases h
     | bad c1 => rw [hs] at h; cases h
 
+/-! ### A stop step ends the run -/
+
+theorem bf_run_split {n : Nat} {c0 c : Bf.Config w} (h : Bf.runCfg n c0 = .outOfFuel c) (m : Nat) :
+    Bf.runCfg (n + m) c0 = Bf.runCfg m c := by
+  induction n generalizing c0 with
+  | zero => simp only [Bf.runCfg] at h; cases h; simp
+  | succ n ih =>
+    have e : n + 1 + m = (n + m) + 1 := by omega
+    rw [e]
+    simp only [Bf.runCfg] at h ⊢
+    cases hs : Bf.step c0 with
+    | next c1 => rw [hs] at h; exact ih h
+    | halt s => rw [hs] at h; cases h
+    | stop s => rw [hs] at h; cases h
+
+theorem inplace_run_split {code : Array Kind} {l : Bool} {n : Nat} {c0 c : Inplace.Cfg w}
+    (h : Inplace.runCfg code l n c0 = .outOfFuel c) (m : Nat) :
+    Inplace.runCfg code l (n + m) c0 = Inplace.runCfg code l m c := by
+  induction n generalizing c0 with
+  | zero => simp only [Inplace.runCfg] at h; cases h; simp
+  | succ n ih =>
+    have e : n + 1 + m = (n + m) + 1 := by omega
+    rw [e]
+    simp only [Inplace.runCfg] at h ⊢
+    cases hs : Inplace.step code l c0 with
+    | next c1 => rw [hs] at h; exact ih h
+    | finished c1 => rw [hs] at h; cases h
+    | stopped c1 => rw [hs] at h; cases h
+    | interrupted c1 => rw [hs] at h; cases h
+    | notOpened p c1 => rw [hs] at h; cases h
+
+theorem ir_run_split {l : Bool} {n : Nat} {c0 c : Ir.Cfg w} (h : Ir.runCfg l n c0 = .outOfFuel c)
+    (m : Nat) : Ir.runCfg l (n + m) c0 = Ir.runCfg l m c := by
+  induction n generalizing c0 with
+  | zero => simp only [Ir.runCfg] at h; cases h; simp
+  | succ n ih =>
+    have e : n + 1 + m = (n + m) + 1 := by omega
+    rw [e]
+    simp only [Ir.runCfg] at h ⊢
+    cases hs : Ir.step l c0 with
+    | next c1 => rw [hs] at h; exact ih h
+    | halt c1 => rw [hs] at h; cases h
+    | stop c1 => rw [hs] at h; cases h
+    | interrupted c1 => rw [hs] at h; cases h
+
+theorem bc_run_split {p : Bc.Program w} {l : Bool} {n : Nat} {c0 c : Bc.Cfg w}
+    (h : Bc.runCfg p l n c0 = .outOfFuel c) (m : Nat) :
+    Bc.runCfg p l (n + m) c0 = Bc.runCfg p l m c := by
+  induction n generalizing c0 with
+  | zero => simp only [Bc.runCfg] at h; cases h; simp
+  | succ n ih =>
+    have e : n + 1 + m = (n + m) + 1 := by omega
+    rw [e]
+    simp only [Bc.runCfg] at h ⊢
+    cases hs : Bc.step p l c0 with
+    | next c1 => rw [hs] at h; exact ih h
+    | halt c1 => rw [hs] at h; cases h
+    | stop c1 => rw [hs] at h; cases h
+    | interrupted c1 => rw [hs] at h; cases h
+    | bad c1 => rw [hs] at h; cases h
+
 /-! ### 3. A refusing sink against a sink that never refuses -/
 
 /-- No refused byte among the events. -/
@@ -384,14 +444,11 @@ theorem readByte_congr {e e' : Env} (h : e.input = e'.input) :
     | _, _ => False := by
   rcases hi : e.input with _ | l
   · have hi' : e'.input = none := by rw [← h, hi]
-    simp only [Env.readByte, hi, hi']
+    simp [Env.readByte, hi, hi']
   · have hi' : e'.input = some l := by rw [← h, hi]
     rcases l with _ | ⟨r, rest⟩
-    · simp only [Env.readByte, hi, hi']; exact ⟨rfl, h, rfl, rfl, rfl⟩
-    · cases r
-      · simp only [Env.readByte, hi, hi']; exact ⟨rfl, rfl, rfl, rfl, rfl⟩
-      · simp only [Env.readByte, hi, hi']; exact ⟨rfl, rfl, rfl, rfl, rfl⟩
-      · simp only [Env.readByte, hi, hi']; exact ⟨rfl, rfl, rfl, rfl⟩
+    · simp [Env.readByte, hi, hi']
+    · cases r <;> simp [Env.readByte, hi, hi']
 
 theorem Agree.input {s s' : State w} (h : Agree s s') (off : Int) :
     (s.input off).1 = (s'.input off).1 ∧ Agree (s.input off).2 (s'.input off).2 := by
